@@ -133,50 +133,83 @@ def r1(chk, repo, d):
 
 
 def r2(chk, repo, d):
+    """the lowering, path by path (sa/paths.py): which store instruction a
+    path emits is read off with the mode variables (`opcode`, or a flag
+    that selects it later) substituted, so the spelling of the selection
+    does not matter"""
+    from .. import paths
     sym = E + "Memory._set"
     f = repo.func(sym)
     chk.analysed(sym)
-    # where does `opcode` get its values
-    defs = assigned_values(f, "opcode")
-    vals = sorted(unparse(v) for s, v in defs)
-    ok = vals == ["Opcode.STX", "Opcode.XADD"]
-    chk.ob("R06.2", sym, "store opcode is STX or XADD", ok, f,
-           f"assignments: {vals}")
-    xs = [s for s, v in defs if unparse(v) == "Opcode.XADD"]
-    ok = len(xs) == 1 and any(t and match("isinstance(value, IAdd)", e)
-                              is not None for e, t in path_facts(xs[0]))
-    chk.ob("R06.2", sym, "XADD is selected exactly on the IAdd path", ok,
-           xs[0] if xs else f, "`elif isinstance(value, IAdd): opcode = "
-           "Opcode.XADD`")
-    unwrap = [s for s in walk_no_nested(f) if match_stmt(
-        "value = value.value", s) is not None]
-    ok = len(unwrap) == 1 and xs and unwrap[0]._parent is xs[0]._parent
-    chk.ob("R06.2", sym, "the amount is unwrapped on the same path", bool(ok),
-           unwrap[0] if unwrap else f, "value = value.value")
-    apps = [c for c in calls_in(f) if isinstance(c.func, ast.Attribute)
-            and c.func.attr == "append" and len(c.args) == 5]
-    stores = [c for c in apps if "ST" in unparse(c.args[0]) or
-              "opcode" in unparse(c.args[0])]
-    loads = [c for c in apps if "LD" in unparse(c.args[0])]
-    ok = len(stores) == 2 and not loads
-    chk.ob("R06.2", sym, "one immediate store, one register store, no load "
-           "of the destination", ok, f, f"{len(stores)} store emissions, "
-           f"{len(loads)} loads")
-    imm = [c for c in stores if "Opcode.ST " in unparse(c.args[0]) + " " or
-           unparse(c.args[0]).startswith("Opcode.ST +")]
-    ok = len(imm) == 1 and any(
-        t and match("opcode == Opcode.STX", e) is not None
-        for e, t in path_facts(stmt_of(imm[0])))
+
+    def on(st, p):
+        out = None
+        if isinstance(st, ast.Assign) and match_stmt(
+                "value = value.value", st) is not None:
+            return ("unwrap", st)
+        for c in ast.walk(st) if not isinstance(st, ast.withitem) else \
+                ast.walk(st.context_expr):
+            if isinstance(c, ast.Call) and isinstance(
+                    c.func, ast.Attribute) and c.func.attr == "append" \
+                    and len(c.args) == 5:
+                out = ("emit", c, paths.substitute(c.args[0], p.env))
+        return out
+    ps = paths.explore(f, on)
+    chk.stats["paths"] += len(ps)
+    iadd = [p for p in ps if p.fact("isinstance(value, IAdd)")]
+    other = [p for p in ps if not p.fact("isinstance(value, IAdd)")]
+    chk.floor("R06.2", "paths of Memory._set on which the value is an IAdd",
+              len(iadd), 2)
+    chk.floor("R06.2", "other paths of Memory._set", len(other), 8)
+    bad_x, bad_unwrap, bad_imm, bad_ld, bad_plain = [], [], [], [], []
+    for p in ps:
+        is_x = p in iadd
+        em = [e for e in p.events if e[0] == "emit"]
+        for _, c, opx in em:
+            txt = unparse(opx)
+            if "LD" in txt:
+                bad_ld.append(c)
+            if not is_x and "XADD" in txt:
+                bad_plain.append(c)
+        if not is_x or p.end == "raise":
+            continue
+        stores = [e for e in em if "ST" in unparse(e[2])
+                  or "XADD" in unparse(e[2])]
+        xs = [e for e in stores if match(
+            "Opcode.XADD + fmt_to_opcode(self.fmt)", e[2]) is not None and
+            match("$e.append($o, dst, src, offset, 0)", e[1]) is not None]
+        if len(stores) != 1 or len(xs) != 1:
+            (bad_imm if any(unparse(e[2]).startswith("Opcode.ST +")
+                            or "Opcode.ST " in unparse(e[2]) + " "
+                            for e in stores) else bad_x).append(
+                (stores[0][1] if stores else f,
+                 [unparse(e[2]) for e in stores]))
+            continue
+        kinds = [e[0] for e in p.events]
+        if "unwrap" not in kinds or kinds.index("unwrap") > kinds.index(
+                "emit"):
+            bad_unwrap.append(xs[0][1])
+    chk.ob("R06.2", sym, "every IAdd path emits exactly one store "
+           "instruction: XADD|size [dst+off] += src", not bad_x,
+           bad_x[0][0] if bad_x else f,
+           f"an IAdd path emits {bad_x[0][1]}" if bad_x else
+           f"{len(iadd)} paths, each `Opcode.XADD + fmt_to_opcode(self.fmt)`"
+           f" with dst, src, offset")
     chk.ob("R06.2", sym, "the immediate-store shortcut is not taken for an "
-           "atomic add", ok, imm[0] if imm else f,
-           "guarded by `opcode == Opcode.STX`: a plain store of the amount "
-           "would overwrite the variable")
-    reg = [c for c in stores if c not in imm]
-    ok = len(reg) == 1 and match(
-        "$e.append(opcode + fmt_to_opcode(self.fmt), dst, src, offset, 0)",
-        reg[0]) is not None
-    chk.ob("R06.2", sym, "the add is one instruction: XADD|size [dst+off] "
-           "+= src", ok, reg[0] if reg else f, "opcode + size modifier")
+           "atomic add", not bad_imm, bad_imm[0][0] if bad_imm else f,
+           f"an IAdd path emits {bad_imm[0][1]}: a plain store of the "
+           f"amount would overwrite the variable" if bad_imm else
+           "no IAdd path reaches the ST (immediate) emission")
+    chk.ob("R06.2", sym, "the amount is unwrapped on the IAdd paths, before "
+           "it is computed", not bad_unwrap,
+           bad_unwrap[0] if bad_unwrap else f, "value = value.value")
+    chk.ob("R06.2", sym, "XADD is selected on the IAdd paths only",
+           not bad_plain, bad_plain[0] if bad_plain else f,
+           "a plain assignment must stay a plain store" if bad_plain else
+           f"{len(other)} other paths emit ST / STX")
+    chk.ob("R06.2", sym, "no load of the destination", not bad_ld,
+           bad_ld[0] if bad_ld else f, "read-modify-write in the program "
+           "would lose concurrent updates")
     mem = d.ev.enum_members(repo.cls(E + "Opcode"))
     chk.ob("R06.3", E + "Opcode", "XADD == STX|ATOMIC|W (0xc3)",
            "XADD" in mem and mem["XADD"].value == isa.EXPECTED["XADD"],
